@@ -1409,7 +1409,7 @@ def parser_2249(payload: str, msg: Message) -> dict | list[dict]:  # TODO: only 
         return [
             {
                 SZ_ZONE_IDX: payload[i : i + 2],
-                **_parser(payload[i + 2 : i + 14]),
+                **_parser(payload[i : i + 14]),
             }
             for i in range(0, len(payload), 14)
         ]
